@@ -253,6 +253,8 @@ pub struct Expect {
     pub failing: Vec<String>,
     /// reason the request is outside the decidable zone, if it is
     pub zone: Option<String>,
+    /// a product of the request needs more than 96 bits (whatever the verdict)
+    pub beyond96: bool,
     pub labels: Vec<&'static str>,
     pub match_facts: Option<MatchFacts>,
     /// bid fee facts for create_bid: expected fee
@@ -269,6 +271,7 @@ impl Expect {
             alts: vec![],
             failing: vec![],
             zone: Some(why.to_string()),
+            beyond96: false,
             labels: vec![],
             match_facts: None,
             expected_fee: None,
@@ -281,6 +284,7 @@ impl Expect {
             alts: vec![],
             failing,
             zone: None,
+            beyond96: false,
             labels: vec![],
             match_facts: None,
             expected_fee: None,
@@ -403,6 +407,12 @@ fn escrow_flow(ctx: &Ctx, e: &mut Effects, denom: &str, amount: u128) {
 }
 
 pub fn expect(ctx: &Ctx, req: &Req) -> Expect {
+    let mut e = expect_inner(ctx, req);
+    e.beyond96 = e.failing.iter().any(|f| f.starts_with("beyond96")) || e.zone.as_deref().map(|z| z.contains("not representable")).unwrap_or(false);
+    e
+}
+
+fn expect_inner(ctx: &Ctx, req: &Req) -> Expect {
     let cfg = match &ctx.book.cfg {
         Some(c) => c,
         None => return Expect::either("no configuration stored"),
@@ -469,6 +479,7 @@ fn finish(
         alts,
         failing: vec![],
         zone: None,
+        beyond96: false,
         labels,
         match_facts: None,
         expected_fee: None,
@@ -590,6 +601,12 @@ fn expect_create_bid(
                 let total = p.mul_u128(size);
                 if !total.representable() {
                     zone = Some("price x size not representable".into());
+                    if !total.is_integer() {
+                        // beyond 96 bits the contract's decimal product is rounded silently; an
+                        // amount that is exactly fractional must still not be admitted (recorded
+                        // as a known finding, see known_findings.json)
+                        failing.push("beyond96: price x size is fractional (and needs more than 96 bits)".into());
+                    }
                 } else if !total.is_integer() {
                     failing.push("price: price x size is not an integer".into());
                 } else {
@@ -1057,6 +1074,11 @@ fn expect_match(
         let bgross_d = bp.mul_u128(size);
         if !gross_d.representable() || (improved && !bgross_d.representable()) {
             zone = Some("price x size not representable".into());
+            // only when nothing else is wrong with the request: the silent rounding is then the
+            // sole reason a fractional amount can get through (known finding)
+            if failing.is_empty() && size >= 1 && ((!gross_d.representable() && !gross_d.is_integer()) || (improved && !bgross_d.representable() && !bgross_d.is_integer())) {
+                failing.push("beyond96: size x price is fractional (and needs more than 96 bits)".into());
+            }
         }
         if gross_d.representable() && !gross_d.is_integer() {
             failing.push("price: size x execution price is not a whole number".into());
@@ -1443,6 +1465,7 @@ fn expect_modify(ctx: &Ctx, cfg: &Cfg, ch: &CfgChange) -> Expect {
         alts: vec![e],
         failing: vec![],
         zone: None,
+        beyond96: false,
         labels,
         match_facts: None,
         expected_fee: None,
